@@ -98,7 +98,7 @@ PROPERTIES = {
     "C12": {
         "modules": ["purity", "ivp", "cachec"], "level": "other", "floor": 1600,
         "assumptions": SOLVER_ASSUME, "trusted": [T["Z3"], T["DFT"], T["IVPC"]],
-        "explanation": "PROVED (real arithmetic): history through an on-disk cache cannot change a result (rel.equal-keys-*: equal lookup keys imply equal spectra, crops and grids, two symbolic runs of S); the result term of S is the same specification for every value of config.NUM_THREADS and for both storage precisions (the spec mentions neither), S and ivp_solver read no module-level name other than the declared ones, declare no global, write no module attribute, have no mutable default, do not mutate their arguments; get_fft_manager returns a manager with the requested thread count from any previous state; fft2/ifft2 forward their argument and norm to the library transform of the same direction; the kernel wrapper returns the kernel of the decorated body on the same arguments from any _compiled state. NOT decided by contracts: bit-identity, 1e-12 agreement across thread settings/processes, 1e-5 single/double agreement (floating point, schedulers): BOUNDED call sequences (bounded/C12.py).",
+        "explanation": "PROVED (real arithmetic): history through an on-disk cache cannot change a result (rel.equal-keys-*: equal lookup keys imply equal spectra, crops and grids, two symbolic runs of S); the result term of S is the same specification for every value of config.NUM_THREADS and for both storage precisions (the spec mentions neither), S and ivp_solver read no module-level name other than the declared ones, declare no global, write no module attribute, have no mutable default, do not mutate their arguments; get_fft_manager returns a manager with the requested thread count from any previous state; the REAL FFTManager class (constructor, wisdom handling, fft2/ifft2 methods; compiled against stubs of pyfftw, pickle, atexit, Path, open) and the module-level fft2/ifft2 forward exactly their argument and norm to the library transform of the same direction whatever the manager's history; the kernel wrapper returns the kernel of the decorated body on the same arguments from any _compiled state. NOT decided by contracts: bit-identity, 1e-12 agreement across thread settings/processes, 1e-5 single/double agreement (floating point, schedulers): BOUNDED call sequences (bounded/C12.py).",
         "level_text": "Frame conditions proved on the real code; floating-point and scheduling clauses are outside this family and covered by a bounded stand-in, labelled bounded.",
         "level_note": "A1 (this is exactly what hides the rounding-level clauses), A4.",
     },
